@@ -55,8 +55,8 @@ structure LoadQuirks where
   `FsLoader::find_file`, so an earlier candidate in a later load path beats a later candidate
   in the importer's directory -/
   candidateMajor : Bool := false
-  /-- C02/C03 (after commit 51f269b): `normalize` keeps empty path segments, so `d//../a` and
-  `m//lib` are still extra names of `a` and `m/lib` -/
+  /-- C02/C03 (between commits 51f269b and 3fe5f5c): `normalize` keeps empty path segments, so
+  `d//../a` and `m//lib` are still extra names of `a` and `m/lib` -/
   normalizeKeepsEmpty : Bool := false
   /-- C03: `Item::Import` evaluates the imported file into a fresh `CssData` (`thead`), whose
   module cache is empty and is thrown away afterwards: a module used inside an imported file is
@@ -74,10 +74,16 @@ def LoadQuirks.asis : LoadQuirks :=
     candidateMajor := true, normalizeKeepsEmpty := true, importFreshCache := true,
     forwardingModuleCopied := true }
 
-/-- the code after the repairs 56921f7 (fallback lookup) and 51f269b (normalised urls) -/
-def LoadQuirks.now : LoadQuirks :=
+/-- the code after the first round of repairs — 56921f7 (fallback lookup) and 51f269b
+(normalised urls) — and before the second -/
+def LoadQuirks.mid : LoadQuirks :=
   { loadCssUnlockEarly := true, candidateMajor := true, normalizeKeepsEmpty := true,
     importFreshCache := true, forwardingModuleCopied := true }
+
+/-- the code today: also 3fe5f5c (empty segments), a803597 (load-css stays locked) and
+31d0dab (`Loader::find_first`: location-major lookup) -/
+def LoadQuirks.now : LoadQuirks :=
+  { importFreshCache := true, forwardingModuleCopied := true }
 
 /-- the `names` tables of `Context::find_file`; `base` is empty or ends with a slash -/
 def candidates (k : Kind) (base name : Str) : List Str :=
